@@ -91,6 +91,17 @@ func (r *RAT[K, V]) Write(k K, value V) {
 	r.values[k][idx] = value
 }
 
+// Rewrite replaces the written values of a key by the given ones, most recent
+// first.
+func (r *RAT[K, V]) Rewrite(k K, values []V) {
+	delete(r.idx, k)
+	delete(r.values, k)
+	delete(r.wrapped, k)
+	for i := len(values) - 1; i >= 0; i-- {
+		r.Write(k, values[i])
+	}
+}
+
 func (r *RAT[K, V]) Values() map[K]V {
 	m := make(map[K]V)
 	for k, v := range r.idx {
